@@ -80,6 +80,27 @@ THEOREMS = [
     "Verif.C13.cardano_chain_eq_implicit",
     "Verif.C13.det_ne_zero_necessary",
     "Verif.C13.cubic_jac_eq_implicit",
+    "Verif.C13.cardano_root_is_simple_root",
+    "Verif.C13.cubic_root_hasDerivAt",
+    "Verif.C13.OF.jac_Lp_hasDerivAt",
+    "Verif.C13.OF.jac_Lc_hasDerivAt",
+    "Verif.C13.OF.jac_St_hasDerivAt",
+    "Verif.C13.OF.jac_kT_hasDerivAt",
+    "Verif.C13.OF.der_hasDerivAt",
+    "Verif.C13.WD.jac_Lp_hasDerivAt",
+    "Verif.C13.WD.jac_Lc_hasDerivAt",
+    "Verif.C13.WD.jac_kT_hasDerivAt",
+    "Verif.C13.WD.der_hasDerivAt",
+    "Verif.C13.EF.jac_Lp_hasDerivAt",
+    "Verif.C13.EF.jac_Lc_hasDerivAt",
+    "Verif.C13.EF.jac_St_hasDerivAt",
+    "Verif.C13.EF.jac_kT_hasDerivAt",
+    "Verif.C13.EF.der_hasDerivAt",
+    "Verif.C13.ED.jac_Lp_hasDerivAt",
+    "Verif.C13.ED.jac_Lc_hasDerivAt",
+    "Verif.C13.ED.jac_St_hasDerivAt",
+    "Verif.C13.ED.jac_kT_hasDerivAt",
+    "Verif.C13.ED.der_hasDerivAt",
 ]
 for _ns, _vars in (("OF", "Lp Lc St kT d"), ("WD", "Lp Lc kT f"), ("EF", "Lp Lc St kT d"), ("ED", "Lp Lc St kT f")):
     THEOREMS += [f"Verif.C13.{_ns}.row_{v}" for v in _vars.split()]
